@@ -16,13 +16,16 @@ for d in seeded/*/; do
   name=$(basename "$d")
   [ -f "$d/patch.diff" ] || continue
   [ -n "$only" ] && [[ "$name" != $only ]] && continue
-  id=$(python3 -c "import json,sys; print(json.load(open('$d/meta.json'))['property'])" 2>/dev/null || echo "${name:0:3}")
+  ids=$(python3 -c "import json,sys; m=json.load(open('$d/meta.json')); print(' '.join(m.get('checks') or [m['property']]))" 2>/dev/null || echo "${name:0:3}")
   tmp=$(mktemp -d /tmp/vp-seeded-XXXXXX)
   rsync -a --exclude .git --exclude __pycache__ --exclude build --exclude doc /repo/ "$tmp/repo/"
   if ! (cd "$tmp/repo" && patch -s -p1 < "$OLDPWD/$d/patch.diff"); then
     echo "| $name | $id | - | PATCH DOES NOT APPLY | - | |" >> "$tmpout"; rm -rf "$tmp"; continue
   fi
   tiers="quick"; [ -n "$SEEDED_THOROUGH" ] && tiers="quick thorough"
+  detected=0
+  for id in $ids; do
+  [ $detected -eq 1 ] && break
   for tier in $tiers; do
     start=$(date +%s)
     # (a seeded defect can make cases very slow; this script is a development aid, so it gives up instead of waiting)
@@ -33,7 +36,9 @@ for d in seeded/*/; do
     if [ $rc -eq 1 ]; then res="DETECTED"; elif [ $rc -eq 0 ]; then res="missed"; elif [ $rc -eq 124 ]; then res="gave up after ${lim}s"; else res="harness error (exit $rc)"; fi
     echo "| $name | $id | $tier | $res | $secs | $keys |" >> "$tmpout"
     echo "$name $id $tier $res ${secs}s $keys"
+    [ $rc -eq 1 ] && detected=1
     [ $rc -ne 0 ] && break
+  done
   done
   rm -rf "$tmp"
 done
